@@ -18,20 +18,59 @@ import (
 
 // World is one completed abstract run of the generator on one family member.
 type World struct {
-	Spec     *Spec // clone with atoms of this run
-	Cfg      gen.Config
-	Script   []int
-	Forks    []absint.ForkSite
-	Err      *absint.RunError // interpreted generator panicked / analysis undecided
-	GenErr   string           // the generator returned an error (text)
-	Files    map[string]*skel.File
-	Models   map[string]*FileModel
-	Events   []absint.Event
-	Warnings []string
-	Assume   []string
-	Ext      []string
-	Steps    int
-	Facts    map[string]int
+	Spec       *Spec // clone with atoms of this run
+	Cfg        gen.Config
+	Script     []int
+	Forks      []absint.ForkSite
+	Err        *absint.RunError // interpreted generator panicked / analysis undecided
+	GenErr     string           // the generator returned an error (text)
+	Files      map[string]*skel.File
+	Models     map[string]*FileModel
+	Events     []absint.Event
+	Warnings   []string
+	Assume     []string
+	Ext        []string
+	Steps      int
+	Facts      map[string]int
+	SizedCheck bool         // apply the --min-sized-ints oracle (set by the C15 driver)
+	Cells      map[int]Cell // final region of every numeric atom of the spec (region domain; --min-sized-ints compares bounds with constants)
+}
+
+// Cell is the region a symbolic number was narrowed to in one world.
+type Cell struct {
+	Lo, Hi         float64
+	LoOpen, HiOpen bool
+}
+
+// collectCells records the final interval of every Float atom of the spec.
+func collectCells(m *absint.Machine, root *Spec) map[int]Cell {
+	out := map[int]Cell{}
+	seen := map[*Spec]bool{}
+	var walk func(s *Spec)
+	walk = func(s *Spec) {
+		if s == nil || seen[s] {
+			return
+		}
+		seen[s] = true
+		for _, a := range s.Atoms {
+			if a != nil && a.Kind == "Float" {
+				lo, hi, lop, hop := m.Interval(a)
+				out[a.ID] = Cell{lo, hi, lop, hop}
+			}
+		}
+		walk(s.Items)
+		for _, p := range s.Props {
+			walk(p.Spec)
+		}
+		for _, x := range s.AnyOf {
+			walk(x)
+		}
+		for _, x := range s.AllOf {
+			walk(x)
+		}
+	}
+	walk(root)
+	return out
 }
 
 // ReservedIdents are literals the generator compares identifiers with; a
@@ -87,6 +126,7 @@ func RunWith(p *core.Program, cfg gen.Config, root *Spec, budget int, facts map[
 		files  map[string]absint.Str
 		genErr string
 		warn   []string
+		cells  map[int]Cell
 	}
 	runs, complete := absint.Explore(p, budget, func(m *absint.Machine) {
 		gen.InstallStubs(m)
@@ -118,6 +158,7 @@ func RunWith(p *core.Program, cfg gen.Config, root *Spec, budget int, facts map[
 		for _, w := range m.Warnings {
 			o.warn = append(o.warn, w.Debug())
 		}
+		o.cells = collectCells(m, o.spec)
 		return o
 	})
 	for _, r := range runs {
@@ -128,7 +169,7 @@ func RunWith(p *core.Program, cfg gen.Config, root *Spec, budget int, facts map[
 			}
 		}
 		if o, ok := r.Out.(*out); ok && o != nil {
-			w.Spec, w.GenErr, w.Warnings = o.spec, o.genErr, o.warn
+			w.Spec, w.GenErr, w.Warnings, w.Cells = o.spec, o.genErr, o.warn, o.cells
 			w.Files = map[string]*skel.File{}
 			w.Models = map[string]*FileModel{}
 			alias := aliasFromFacts(w.Facts)
